@@ -1164,9 +1164,13 @@ def sx_sqrt(x, nonneg_known=False, lemmas=None):
     return SNum(r, False)
 
 
+_TRIAL = 2000      # trial division bound: constants that come from floats have 50-digit numerators; what is left above the bound
+                   # stays one (possibly composite) factor - canonical all the same, only less shared
+
+
 def _prime_factors(t):
     out, d = [], 2
-    while d * d <= t:
+    while d * d <= t and d <= _TRIAL:
         while t % d == 0:
             out.append(d)
             t //= d
@@ -1189,11 +1193,14 @@ def _sqrt_prime(pr):
 def _square_part(n):
     """n = s^2 * t with t squarefree -> (s, t)"""
     s, t, d = 1, n, 2
-    while d * d <= t:
+    while d * d <= t and d <= _TRIAL:
         while t % (d * d) == 0:
             t //= d * d
             s *= d
         d += 1
+    r = math.isqrt(t)
+    if r * r == t:
+        s, t = s * r, 1
     return s, t
 
 
